@@ -1017,13 +1017,14 @@ class EventBus:
             # evicted from every history when max_history_size is small), then any bus's history
             parent_event = current._event_parent  # pyright: ignore[reportPrivateUsage]
             # Create a list copy to avoid "Set changed size during iteration" error
+            # (identity checks: an event class may define __len__ / __bool__, and an empty / falsy event is still an event)
             for bus in list(EventBus.all_instances):
-                if parent_event:
+                if parent_event is not None:
                     break
-                if bus and current.event_parent_id in bus.event_history:
+                if bus is not None and current.event_parent_id in bus.event_history:
                     parent_event = bus.event_history[current.event_parent_id]
 
-            if not parent_event:
+            if parent_event is None:
                 break
 
             # Check if parent can be marked complete
@@ -1372,7 +1373,7 @@ class EventBus:
                 parent_event = bus.event_history[event.event_parent_id]
                 break
 
-        if not parent_event:
+        if parent_event is None:
             return depth
 
         # Check if this handler processed the parent event
